@@ -40,3 +40,63 @@ def gen_style_macros():
     body += 'def c18Plugins : List (List Char × List Char) := [\n  ' + ',\n  '.join(pairs) + ']\n\n'
     body += 'end Pybtex.Gen\n'
     return 'StyleMacros.lean', body
+
+
+def _func(tree, cls, name):
+    import ast
+    for node in ast.walk(tree):
+        if cls is None and isinstance(node, ast.FunctionDef) and node.name == name:
+            return node
+        if isinstance(node, ast.ClassDef) and node.name == cls:
+            for sub in node.body:
+                if isinstance(sub, ast.FunctionDef) and sub.name == name:
+                    return sub
+    raise LookupError('%s.%s not found' % (cls, name))
+
+
+@tables.generator
+def gen_c18_consts():
+    """Constants the C18 model hard-codes, read off the SOURCE TEXT of the functions it follows (ast, no import):
+    the format of the key of a key-less entry, the wild card of want_entry, the field add_entry looks at,
+    the error_code of a warning in report_error, the exit status of CommandLine.__call__ for a PybtexError."""
+    import ast
+    import compat
+
+    def parse(rel):
+        with open(os.path.join(compat.REPO, *rel.split('/')), encoding='utf-8') as f:
+            return ast.parse(f.read())
+
+    bib = parse('pybtex/database/input/bibtex.py')
+    fmts = [n.left.value for n in ast.walk(_func(bib, 'Parser', 'process_entry'))
+            if isinstance(n, ast.BinOp) and isinstance(n.op, ast.Mod) and isinstance(n.left, ast.Constant) and isinstance(n.left.value, str)]
+    (unnamed,) = fmts
+    db = parse('pybtex/database/__init__.py')
+    stars = [n.left.value for n in ast.walk(_func(db, 'BibliographyData', 'want_entry'))
+             if isinstance(n, ast.Compare) and isinstance(n.left, ast.Constant) and isinstance(n.left.value, str)]
+    (star,) = stars
+    subs = [n.slice.value for n in ast.walk(_func(db, 'BibliographyData', 'add_entry'))
+            if isinstance(n, ast.Subscript) and isinstance(n.slice, ast.Constant) and isinstance(n.slice.value, str)]
+    (crossref,) = subs
+    err = parse('pybtex/errors.py')
+    rep = _func(err, None, 'report_error')
+    codes = [n.value.value for n in ast.walk(rep) if isinstance(n, ast.Assign) and any(getattr(t, 'id', None) == 'error_code' for t in n.targets)
+             and isinstance(n.value, ast.Constant)]
+    (code,) = codes
+    cmd = parse('pybtex/cmdline.py')
+    exits = [n.args[0].value for n in ast.walk(_func(cmd, 'CommandLine', '__call__')) if isinstance(n, ast.Call)
+             and isinstance(n.func, ast.Attribute) and n.func.attr == 'exit' and n.args and isinstance(n.args[0], ast.Constant)]
+    (exit_code,) = exits
+    body = 'namespace Pybtex.Gen\n\n'
+    body += '/-- `Parser.process_entry`: the format of the key a key-less entry gets (`% self.unnamed_entry_counter`). -/\n'
+    body += 'def c18UnnamedFormat : List Char := %s.toList\n\n' % tables.lean_str(unnamed)
+    body += '/-- `BibliographyData.want_entry`: the citation that stands for every entry. -/\n'
+    body += 'def c18WildCard : List Char := %s.toList\n\n' % tables.lean_str(star)
+    body += '/-- `BibliographyData.add_entry`: the field whose value becomes wanted. -/\n'
+    body += 'def c18CrossrefField : List Char := %s.toList\n\n' % tables.lean_str(crossref)
+    body += '/-- `report_error`: the value `error_code` gets on a warning. -/\n'
+    body += 'def c18WarningCode : Nat := %d\n' % code
+    body += '\n'
+    body += '/-- `CommandLine.__call__`: the exit status when a PybtexError escapes `main()`. -/\n'
+    body += 'def c18ErrorExit : Nat := %d\n\n' % exit_code
+    body += 'end Pybtex.Gen\n'
+    return 'C18Consts.lean', body
